@@ -1,1 +1,54 @@
-// harness bodies compiled inside quinn-udp/src/unix.rs (feature __verif-hooks)
+// Harness bodies for quinn-udp/src/unix.rs.
+
+/// C19.b: `decode_recv` on a control block holding (optionally) a TOS/TCLASS byte, a UDP_GRO
+/// stride and an IPv4 PKTINFO: the ECN codepoint is the low two bits of the traffic class, the
+/// stride is the GRO value (or the datagram length without one), the destination address and
+/// interface index are those of the PKTINFO, and the source address comes from `msg_name`.
+#[cfg(any(target_os = "linux", target_os = "android"))]
+pub fn decode_recv_meta(len: u16, use_tos: bool, tos: u8, use_gro: bool, gro: u16, use_pktinfo: bool, dst: u32, ifindex: u32, port: u16, src: u32) -> u32 {
+    let mut ctrl = cmsg::Aligned([0u8; cmsg::LEN]);
+    let mut hdr: libc::msghdr = unsafe { core::mem::zeroed() };
+    hdr.msg_control = ctrl.0.as_mut_ptr() as _;
+    hdr.msg_controllen = cmsg::LEN as _;
+    {
+        let mut enc = unsafe { cmsg::Encoder::new(&mut hdr) };
+        if use_tos {
+            enc.push(libc::IPPROTO_IP, libc::IP_TOS, tos);
+        }
+        if use_gro {
+            enc.push(libc::SOL_UDP, libc::UDP_GRO, gro as libc::c_int);
+        }
+        if use_pktinfo {
+            enc.push(libc::IPPROTO_IP, libc::IP_PKTINFO, libc::in_pktinfo { ipi_ifindex: ifindex as _, ipi_spec_dst: libc::in_addr { s_addr: 0 }, ipi_addr: libc::in_addr { s_addr: dst } });
+        }
+        enc.finish();
+    }
+    let mut name = MaybeUninit::<libc::sockaddr_storage>::zeroed();
+    unsafe {
+        let sin = name.as_mut_ptr() as *mut libc::sockaddr_in;
+        (*sin).sin_family = libc::AF_INET as _;
+        (*sin).sin_port = port.to_be();
+        (*sin).sin_addr = libc::in_addr { s_addr: src };
+    }
+    let Ok(meta) = decode_recv(&name, &hdr, len as usize) else { panic!("AF_INET source address must decode") };
+    assert!(meta.len == len as usize);
+    assert!(meta.stride == if use_gro { gro as usize } else { len as usize });
+    let want_ecn = if use_tos { EcnCodepoint::from_bits(tos) } else { None };
+    assert!(meta.ecn == want_ecn);
+    if use_tos {
+        match tos & 0b11 {
+            0b10 => assert!(meta.ecn == Some(EcnCodepoint::Ect0)),
+            0b01 => assert!(meta.ecn == Some(EcnCodepoint::Ect1)),
+            0b11 => assert!(meta.ecn == Some(EcnCodepoint::Ce)),
+            _ => assert!(meta.ecn.is_none()),
+        }
+    }
+    if use_pktinfo {
+        assert!(meta.dst_ip == Some(IpAddr::V4(Ipv4Addr::from(dst.to_ne_bytes()))));
+        assert!(meta.interface_index == Some(ifindex));
+    } else {
+        assert!(meta.dst_ip.is_none() && meta.interface_index.is_none());
+    }
+    assert!(meta.addr == SocketAddr::V4(std::net::SocketAddrV4::new(Ipv4Addr::from(src.to_ne_bytes()), port)));
+    1 | (if use_tos { 2 } else { 0 }) | (if use_gro { 4 } else { 0 }) | (if use_pktinfo { 8 } else { 0 })
+}
